@@ -95,3 +95,122 @@ Definition tree_add_ruleset (t : tree rval) (src : nat) (rs : list rule_def) : t
 (** [FindRule] on the tree as it is now (all three findNode repairs in) *)
 Definition tree_find_rule (t : tree rval) (has_default : bool) (path : str) (m : matcher rval) : outcome :=
   outcome_of has_default (tree_find true true true m t path).
+
+(** ** rule-set histories (AddRuleSet / UpdateRuleSet / DeleteRuleSet of repository_impl.go) at the
+    level of the pattern-map machine, faithful to the code as it is: an update deletes the routes
+    of the rules that are gone or changed and APPENDS the routes of the new or changed ones
+    (open finding C06-F1 = C02-F3: rule order on a shared expression differs from a fresh load).
+    Which operations are accepted is data (the implementation's answer); an accepted operation is
+    applied forcibly.  [h_same] / [h_equal]: the repository's SameAs / EqualTo (id and rule-set id
+    equal / definition hash equal), observed. *)
+
+Record hrule := { h_rule : rule_def; h_same : bool; h_equal : bool }.
+
+Inductive hop :=
+| HCreate (src : nat) (rs : list rule_def) (accepted : bool)
+| HUpdate (src : nat) (rs : list hrule) (accepted : bool)
+| HDelete (src : nat) (accepted : bool).
+
+(** forced Add: the value goes to the end of its expression's list *)
+Fixpoint upsert (d : db rval) (p : pat) (ks : list str) (v : rval) (bt : bool) : db rval :=
+  match d with
+  | [] => [(p, {| vals := [v]; flag := bt; keys := ks |})]
+  | (q, n) :: r =>
+    if pat_eqb p q then (q, {| vals := vals n ++ [v]; flag := bt; keys := ks |}) :: r
+    else (q, n) :: upsert r p ks v bt
+  end.
+
+Definition upsert_op (d : db rval) (a : addop rval) : db rval :=
+  match parse_expr (ao_expr a) with
+  | Some (p, ks) => upsert d p ks (ao_val a) (ao_bt a)
+  | None => d
+  end.
+
+Definition rval_eqb (a b : rval) : bool := Nat.eqb (fst a) (fst b) && Nat.eqb (snd a) (snd b).
+
+Fixpoint remove_one (v : rval) (l : list rval) : list rval :=
+  match l with
+  | [] => []
+  | x :: r => if rval_eqb v x then r else x :: remove_one v r
+  end.
+
+(** Delete(path, "the very route"): one occurrence of the value leaves the expression's list;
+    an expression without values leaves the index *)
+Fixpoint delete_one (d : db rval) (p : pat) (v : rval) : db rval :=
+  match d with
+  | [] => []
+  | (q, n) :: r =>
+    if pat_eqb p q then
+      match remove_one v (vals n) with
+      | [] => r
+      | vs => (q, {| vals := vs; flag := flag n; keys := keys n |}) :: r
+      end
+    else (q, n) :: delete_one r p v
+  end.
+
+Definition delete_op (d : db rval) (a : addop rval) : db rval :=
+  match parse_expr (ao_expr a) with
+  | Some (p, _) => delete_one d p (ao_val a)
+  | None => d
+  end.
+
+Definition known := list (nat * rule_def).       (* repository.knownRules: (rule-set id, rule) *)
+
+Definition has_id (id : nat) (rs : list hrule) : option hrule :=
+  find (fun hr => Nat.eqb (r_id (h_rule hr)) id) rs.
+
+Definition hstep (st : db rval * known) (o : hop) : db rval * known :=
+  let (d, kn) := st in
+  match o with
+  | HCreate src rs true =>
+    (fold_left upsert_op (ruleset_adds src rs) d, kn ++ map (fun r => (src, r)) rs)
+  | HUpdate src rs true =>
+    let applicable := filter (fun x => Nat.eqb (fst x) src) kn in
+    let to_add := map h_rule (filter (fun hr => negb (h_same hr) || negb (h_equal hr)) rs) in
+    let doomed (x : nat * rule_def) :=
+      Nat.eqb (fst x) src &&
+      match has_id (r_id (snd x)) rs with
+      | None => true                      (* gone *)
+      | Some hr => negb (h_equal hr)      (* changed *)
+      end in
+    let to_del := map snd (filter doomed applicable) in
+    let d1 := fold_left delete_op (ruleset_adds src to_del) d in
+    let d2 := fold_left upsert_op (ruleset_adds src to_add) d1 in
+    (d2, filter (fun x => negb (doomed x)) kn ++ map (fun r => (src, r)) to_add)
+  | HDelete src true =>
+    let applicable := map snd (filter (fun x => Nat.eqb (fst x) src) kn) in
+    (fold_left delete_op (ruleset_adds src applicable) d, filter (fun x => negb (Nat.eqb (fst x) src)) kn)
+  | _ => st
+  end.
+
+Definition hist_db (ops : list hop) : db rval := fst (fold_left hstep ops ([], [])).
+
+(** the rule sets in force after the history, as their authors wrote them *)
+Fixpoint set_assoc (src : nat) (rs : list rule_def) (l : list (nat * list rule_def)) : list (nat * list rule_def) :=
+  match l with
+  | [] => [(src, rs)]
+  | (s, x) :: r => if Nat.eqb s src then (s, rs) :: r else (s, x) :: set_assoc src rs r
+  end.
+
+Definition final_step (l : list (nat * list rule_def)) (o : hop) : list (nat * list rule_def) :=
+  match o with
+  | HCreate src rs true => set_assoc src rs l
+  | HUpdate src rs true => set_assoc src (map h_rule rs) l
+  | HDelete src true => filter (fun x => negb (Nat.eqb (fst x) src)) l
+  | _ => l
+  end.
+
+Definition final_sets (ops : list hop) : list (nat * list rule_def) := fold_left final_step ops [].
+
+(** a fresh load of those rule sets *)
+Definition fresh_db (ops : list hop) : db rval :=
+  fold_left upsert_op (flat_map (fun x => ruleset_adds (fst x) (snd x)) (final_sets ops)) [].
+
+(** finding C02-F3 (= C06-F1 seen from C02) can show only if some expression matching the path
+    holds its rules in another order than a fresh load of the rule sets in force *)
+Definition guard_F3 (hd fd : db rval) (path : str) : bool :=
+  existsb (fun e => matchesb (fst e) path &&
+                    match assoc (fst e) fd with
+                    | Some n => negb (list_eqb rval_eqb (vals (snd e)) (vals n))
+                    | None => true
+                    end) hd.
